@@ -39,7 +39,7 @@ type c10Scenario struct {
 	Seg                int        `json:"segmentation"`
 	LatencyNs          int64      `json:"latency_ns"`
 	ResumeDropFirst    bool       `json:"first_resumption_attempt_loses_its_connection,omitempty"` // with loss_and_resumption_at_the_end: the connection of the first attempt breaks while the answer to <resume/> is awaited
-	ResumeAtEnd        bool       `json:"loss_and_resumption_at_the_end,omitempty"` // the session is lost and resumed; <resumed/> repeats the last acknowledged h
+	ResumeAtEnd        bool       `json:"loss_and_resumption_at_the_end,omitempty"`                // the session is lost and resumed; <resumed/> repeats the last acknowledged h
 }
 
 func init() {
